@@ -40,10 +40,7 @@ PROPS = {
         "suites": ["b64"],
         "level": "proof",
         "technique": "Lean 4 proof over kernels regenerated from base64le.go (OR-decomposition of the shift/mask expressions + exhaustive per-byte kernel evaluation + induction over 3-byte groups and over the three decode loops) + Go/Lean/bit-level-reference correspondence",
-        "claim": "Kernel-checked for ALL byte strings and every padding/strict mode: Encode = the bit-level definition (symbols are successive 6-bit groups of b0|b1<<8|b2<<16), "
-                 "every alphabet index < 64, length arithmetic, decodeMap inverts the alphabet, the 64-bit/32-bit/per-quantum decode paths compute the same bytes, "
-                 "Decode(Encode(x)) = x on the faithful three-loop model, corrupt/strict rejections at quantum level, the exported encodings' alphabets and no-padding (facts regenerated from source). "
-                 "The shift/mask expressions are regenerated from the Go source on every run; the loop structure is hand-modelled and tied by differential runs.",
+        "claim": "Kernel-checked for ALL byte strings / texts and every padding/strict mode: Encode = the bit-level definition (symbols are successive 6-bit groups of b0|b1<<8|b2<<16), every alphabet index < 64, length arithmetic, decodeMap inverts the alphabet, Decode(Encode(x)) = x, and the model's Decode — 64-bit, 32-bit and per-quantum paths, padding, newline skipping, strict mode — equals an independent declarative reference decoder in result bytes AND error offset (C16Decode.decode_eq_ref), so accepted texts are canonical up to the tolerated unused bits, nothing is ever silently decoded from a foreign byte, and Decode never stores outside its buffer; the exported crypt(3) alphabets are the documented ones (regenerated). The shift/mask expressions are regenerated from the Go source on every run; the loop structure of the hand model is tied to Go by ~300 000 differential operations incl. exhaustive tails and malformed edits.",
         "note": "Decode is characterised for ALL texts (Props/C16Decode.lean): decode_eq_ref — the model's Decode (three paths, padding, newline skipping, strict mode) equals an independent declarative reference decoder (Spec/Base64Ref.lean) in result bytes AND error offset; accepted_is_canonical_or_tolerated, never_silent_garbage, malformed_rejected, nothing_after_padding, incomplete_rejected, decode_never_panics. Trusted: gogen's expression translator; the loop structure of the hand-written Encode/Decode model is tied to Go by correspondence.",
         "rule": "b64: EncodedLen/DecodedLen for n ≤ 300; all 256 one-byte tails, two-byte tails (all 65536 at thorough), 2^16 (quick) / 2^21 (thorough) random three-byte groups, "
                 "random strings up to 4096 bytes in four modes decoded into buffers of five sizes (8-symbol, 4-symbol and quantum paths counted), random symbol quanta with injected bad symbols/padding/newlines, single edits of valid encodings; "
@@ -71,9 +68,7 @@ PROPS = {
         "suites": ["scheme"],
         "level": "proof",
         "technique": "Lean 4 proof (KDF totality for every password length by induction over the loops; generated salt always passes the regenerated guards; dispatcher facts) + Go/Lean byte-identical NewHash/Check correspondence under scripted entropy",
-        "claim": "Kernel-checked for ALL inputs: the md5-crypt, SHA-crypt, Sun-MD5 and sha1-crypt skeletons return a key for every password length and every hash function (the loop arithmetic that panicked for long passwords), "
-                 "a salt drawn by Encoding.Rand violates no guard clause, every documented prefix is registered with its package's Check, and Check succeeds iff the digest re-derived from the hash's own fields equals the stored one. "
-                 "The round trip of the ten shipped layouts is C10's. On the real code NewHash→Check→crypt.Check is run on every boundary length, and the generated hash string is byte-identical with the model's under scripted crypto/rand.",
+        "claim": "Kernel-checked END TO END on the scheme-level model, for all ten schemes and EVERY request: the string NewHash returns verifies with the password it was made from (EndToEnd.newHash_then_check_<scheme>; Key treated as an opaque function, so this holds for every password length and byte content), NewHash succeeds with a non-empty hash on the scheme's domain (newHash_ok/total_<scheme>), a salt drawn by Encoding.Rand violates no guard clause, the KDF skeletons return a key for every password length and every hash function (the loop arithmetic that panicked for long passwords), every documented prefix is registered with its package's Check and the dispatcher routes by prefix (C07). On the real code NewHash→Check→crypt.Check is run on every boundary length, and the generated hash string is byte-identical with the model's under scripted crypto/rand.",
         "note": "Kernel-checked END TO END on the model for all ten schemes and EVERY request: EndToEnd.newHash_then_check_<scheme> (newHash S r = ok h → check S h r.password = nil; Key treated as an opaque function), newHash_ok_<scheme> / newHash_total_<scheme> (NewHash returns a non-empty hash on the scheme's domain; for md5/sha*/sunmd5/nthash under the named hypothesis that the hash primitive returns digests of its size; bcrypt: success given a 23-byte key), newHash_empty_iff_md5/des (the documented quirk: md5/des NewHash ignore Key's error). "
                 "Hypotheses forced by the proofs and checked on Go: sunmd5 with rounds ≠ 0 needs at least one entropy byte (a failing entropy read panics in Go); sha1/argon2 costs < 2^32 (typing). Partial: the tie of the scheme-level model to Go is the byte-for-byte correspondence of NewHash/Check/Params under scripted entropy.",
         "rule": "scheme: per scheme 18 password lengths at quick (0,1,7,8,9,16,31,32,33,63,64,65,72,73,128,254,255,256 clipped to the scheme's maximum; every length 0..300 at thorough) with 8-bit NUL-free content, "
@@ -101,8 +96,7 @@ PROPS = {
         "fail_kinds": ["their-hash-rejected", "our-hash-rejected", "their-mismatch-accepted", "no-reference"],
         "level": "proof",
         "technique": "Lean 4 proof (code-shaped KDF skeleton = reference written from the published algorithm, for all inputs and all hash functions; loop closed forms by induction) + Go/Lean key correspondence on all ten schemes",
-        "claim": "Kernel-checked for ALL passwords, salts, round counts and ALL hash functions: md5-crypt and SHA-crypt skeletons equal references written from PHK's and Drepper's descriptions (cycleTake, binary digits LSB-first, 16+A[0] repetitions, the i%2/i%3/i%7 round pattern); "
-                 "final permutation tables (regenerated) are permutations; little-endian base64 digest encoding = bit-level spec (C16). The hand-written skeletons and the executable Lean primitives are tied to Go by key-for-key comparison on every boundary password length for all ten schemes.",
+        "claim": "Kernel-checked for ALL passwords, salts, round counts (and ALL hash functions where the scheme has one): every scheme's code-shaped model equals a reference written from the published algorithm — md5-crypt (PHK), SHA-crypt (Drepper), sha1-crypt (iterated HMAC), Sun MD5 (coin-toss rounds), NT hash (MD4 of UTF-16LE), bcrypt (EksBlowfish with the per-prefix key rules), DES-crypt and BSDi (salted DES iterated 25 / n times, key folding) — and the table-driven DES of des/descrypt, whose tables are regenerated from const.go on every run, equals FIPS 46-3 DES with the crypt(3) salt swap for every 64-bit key and block (C03b.encrypt_eq_fips). Final permutation tables are permutations; the digest encoding = the bit-level base64 spec (C16). Go is tied to the models key for key (kdf suite) and to the system's libxcrypt in both directions (xcrypt suite).",
         "note": "Every scheme now has a reference written from the published algorithm and a kernel-checked model = reference theorem for all inputs (Props/C03b.lean): sha1crypt_eq_spec (iterated HMAC), sunmd5_eq_spec(_wrap) (coin-toss rounds), nthash_eq_spec (MD4 of UTF-16LE; Go's one-U+FFFD-per-bad-byte rule), bcrypt_eq_spec (EksBlowfish, key‖NUL rules per prefix) with bcrypt_long_password_deviation stating the documented pre-2b ≥254-byte rule exactly, descrypt/desext_layer_eq_spec (25 / n salted DES iterations, BSDi key folding, 11-symbol output), and encrypt_eq_fips — the table-driven DES of des/descrypt, with its tables REGENERATED from const.go, equals FIPS 46-3 DES with the crypt(3) salt swap for every 64-bit key and block (table facts ie3264_is_IP_then_E, spe_is_E_P_S, pc_tables_are_PC1_shifts_PC2, cf6464_is_IPinv, salt_is_E_swap decided by the kernel). "
                 "Partial: hash/cipher primitives (MD4/MD5/SHA/HMAC/Blowfish) are parameters or hand copies validated differentially; Go is tied to the system's libxcrypt 4.4 (cgo, crypt_r) in both directions on the shared domain by the xcrypt suite (a test, labelled as such). Known finding F11: libxcrypt's zero-rounds Sun MD5 form \"$md5$salt$$digest\" is rejected here.",
         "rule": "kdf: per scheme passwords of 30 boundary lengths (0..257 around 8/16/32/56/64/72/128/254/256) plus random lengths ≤ 300, 8-bit content, every legal salt length class, rounds dense near the minimum, all prefix/option variants; "
@@ -177,10 +171,7 @@ PROPS = {
         "fail_kinds": ["roundtrip", "remarshal-unstable"],
         "level": "proof",
         "technique": "Lean 4 proof (strconv Format/Parse round trips for every base and bit size; parse∘render; per-field step lemmas of the Unmarshal loop composed by induction over the field list; all ten shipped layouts over shapes regenerated from the Go structs) + Go/Lean codec correspondence on run-time generated struct types",
-        "claim": "Kernel-checked: ParseUint(FormatUint n b) = n and the Int analogue for every base 2..36 and bit size; parsing a rendered well-formed tree gives the tree back; the general round trip for optional-free positional layouts (any number of fields, any kinds) by induction; "
-                 "and Unmarshal(Marshal v) = v for ALL values of all ten shipped scheme layouts (param, omitempty, group, inline, text codecs), stated over the shapes regenerated from the current Go struct tags. "
-                 "The hypothesis (Unambiguous shape ∧ Representable value) is an explicit decidable predicate (Spec/CodecDomain.lean); inside it the round trip is also checked directly on Go for generated types. "
-                 "The Marshal/Unmarshal/TagInfo models are hand-written and tied by ~80 000 differential operations per run incl. error kinds, offsets and field names.",
+        "claim": "Kernel-checked IN GENERAL (C10General.roundtrip_L6): for an arbitrary struct type and every value inside an explicit decidable hypothesis (type info as getTypeInfo builds it, Unambiguous layout with separated parameter groups, typed and Representable value whose last text is not empty and which does not mimic an omitted parameter) Unmarshal(Marshal v) = v — covering params, inline fields, text codecs, groups in any order, omitempty and trailing optional fields; each clause of the hypothesis is shown necessary by a counterexample theorem; ParseUint(FormatUint n b) = n and the Int analogue for every base 2..36 and bit size; parse∘render = id; and the ten shipped scheme layouts as instances over shapes regenerated from the current Go struct tags. Inside the hypothesis the round trip is also checked directly on Go for run-time generated types (the suite's domain test is the theorem's hypothesis). The Marshal/Unmarshal/TagInfo models are hand-written and tied by ~100 000 differential operations per run incl. error kinds, offsets and field names.",
         "note": "The GENERAL theorem is kernel-checked (Props/C10General.lean, roundtrip_L6 / roundtrip_general): for an arbitrary struct type and value inside the explicit decidable hypothesis — type info as getTypeInfo builds it (tiWf), Unambiguous, parameter groups separated by something that is always written, value typed and Representable, last text not empty (F12), no positional text that mimics an omitted optional parameter — Unmarshal(Marshal v) = v, covering params, inline, text codecs, groups, omitempty and trailing optionals; needs_* theorems show each added clause is necessary (two were holes in the earlier hand-calibrated predicate, found by the proof: merged group runs, a value stealing an omitted parameter's name). The proof also forced numReqValues = number of required fields, which exposed a genuine defect (a shadowed param counted twice), repaired in d4f4d57. The suite's in-domain direct check uses exactly the theorem's hypothesis. Trusted: reflect's view of a type; the codec model is tied to Go differentially.",
         "rule": "codec: 16 hand-written shapes (embedding, shadowing, pointers, mirrors of the ten shipped layouts) + 120 (quick) / 2500 (thorough) struct types generated with reflect.StructOf over kinds × tag options (1..8 fields), 6..20 values each over/outside each field's alphabet, lengths 0..40, integer extremes; "
                 "for each: typeinfo, Marshal in T/*T/**T form, Unmarshal of the canonical string and of its edit-distance-1 neighbourhood/splices, round trip, re-marshal stability, respelling verdict; "
@@ -193,9 +184,7 @@ PROPS = {
         "fail_kinds": ["not-a-respelling", "accepted-unwritable"],
         "level": "proof",
         "technique": "Lean 4: decidable Respell specification evaluated on every string the real Unmarshal accepts (against Marshal of the very value it returned) + kernel-checked lossless/exact parsing so that nothing is dropped before the codec sees it",
-        "claim": "Kernel-checked: the parser is lossless and equals the split-based reference on every input, no value hides a delimiter, parse∘render is the identity on well-formed trees (so an accepted string's fragments are exactly what the codec matched). "
-                 "The tolerated respellings (one trailing delimiter; integer spellings of equal value; order inside a parameter group; explicitly written zero/empty optional field) are a decidable specification written against the derivation of the canonical string, "
-                 "and EVERY string accepted by the real Unmarshal in the suites (edit-distance-1 neighbourhoods, splices, all short strings) is checked to be a respelling of the real Marshal of the returned value — a disagreement is a concrete failing input.",
+        "claim": 'Kernel-checked IN GENERAL (C10General.accepted_respell_all): for an arbitrary struct type whose tag options are consistent, every string Unmarshal accepts is a tolerated respelling (one trailing delimiter; integer spellings of equal value; order inside a parameter group; explicitly written zero/empty optional field) of the string Marshal writes for the very value read; the excluded option combinations are shown necessary by counterexample theorems and are reported as known findings when they occur. The parser is lossless and equals the split-based reference on every input, so nothing is dropped before the codec sees it. On Go: EVERY string accepted by the real Unmarshal in the suites (edit-distance-1 neighbourhoods, splices incl. duplicated parameters and wrap-around integers, all short strings) is checked to be a respelling of the real Marshal of the returned value, and an accepted string whose value Marshal refuses is reported — a disagreement is a concrete failing input.',
         "note": "Kernel-checked in general (Props/C10General.lean, accepted_respell_all): for an ARBITRARY struct type whose options are consistent (no length on integers or the prefix, [n]byte of length n, the 4-symbol integer with length:4, optional fields not inline / not non-empty arrays / not whitelist-typed, distinct group names) every string Unmarshal accepts is a tolerated respelling of what Marshal writes for the value read; needs_intNoLength / needs_arrayLength / needs_desIntLength / needs_optOk show the exclusions are necessary (option combinations no shipped scheme uses; F13 is one of them). Per shipped layout also Accept.accepts_only_respellings_<scheme>. Known findings F10 (param+inline) and F13 (omitempty on non-empty arrays) are reported as such.",
         "rule": "codec: see C10; for every (type, value): every string at edit distance 1 from the canonical marshalling under the class-representative alphabet {$ , = _ 0 9 a Z . / + @ NUL 0xFF} (exhaustive for strings ≤ 24 bytes on a quarter of the types, sampled otherwise), "
                 "structural splices (prefix inserted/removed, name=/= removed, fragments swapped/duplicated, group split/merged, junk fragment/group appended), all strings ≤ 4 (quick) / 5 (thorough) over {$ , = a 0 _} for five small types; "
@@ -220,8 +209,7 @@ PROPS = {
         "suites": ["scheme"],
         "level": "proof",
         "technique": "Lean 4 proof (Params and Check apply the same defaults — decided on the regenerated flow IR; canonical-domain round trips of the ten layouts) + byte-for-byte NewHash correspondence and an independent canonical-layout recogniser on Go",
-        "claim": "Kernel-checked on regenerated IR/shapes: Params and Check of every scheme contain the same default-filling statements; every canonical-domain value of the ten layouts marshals to a string that unmarshals to the same fields (C10.canonical_*, roundtrip_*); Check succeeds iff Key on the extracted parameters re-encodes to the stored digest (C02.check_ok_iff, where the extracted parameters are exactly what Params returns in the model). "
-                 "On Go: every generated hash matches an independently written regular expression of the canonical layout, Params returns the requested cost/options and the generated salt, and the hash string equals the model's reassembly byte for byte.",
+        "claim": "Kernel-checked END TO END on the model for all ten schemes and every request: the string NewHash returns is accepted by an independently written recogniser of the documented layout with exactly the documented prefix, the requested cost in canonical form, a salt of the (regenerated) default length over the alphabet and a fixed-length digest that is Key's own result re-encoded (EndToEnd.newHash_canonical_<scheme>); Params returns the request and the drawn salt (params_of_newHash_<scheme>); Params and Check of every scheme contain the same default-filling statements (decided on the regenerated flow IR); Check succeeds iff Key on the extracted parameters re-encodes to the stored digest (C02.check_ok_iff). On Go: every generated hash matches an independently written regular expression, Params returns the requested cost/options and the generated salt, the hash equals the model's reassembly byte for byte, the BSDi integer coding is compared on every 6-bit boundary and at the exported bound, and Check ⇔ Key(Params) is checked on the accepted non-canonical spellings.",
         "note": "Kernel-checked END TO END on the model for all ten schemes and every request: EndToEnd.newHash_canonical_<scheme> (the returned string is accepted by the independent recogniser Spec/Grammar.lean with the documented prefix, the requested cost in canonical decimal / two-digit / 4-symbol form, a salt of the regenerated default length over the alphabet, a digest of the fixed length over the alphabet, and Key's own result re-encoded) and params_of_newHash_<scheme> (Params returns the request and the drawn salt). "
                 "On Go the same is checked by an independently written regular expression, by byte-identity with the model, and by descrypt.EncodeInt/DecodeInt against the model on every 6-bit boundary. Partial: model↔Go tie is differential.",
         "rule": "scheme: see C01; canonical-layout regular expression per scheme; Params compared with the model; non-trivial/distinct = distinct generated hashes",
@@ -275,8 +263,7 @@ PROPS = {
         "level": "proof",
         "fail_kinds": ["data-race", "schedule-dependent", "goroutine-leak", "reference-set", "differs-from-sequential"],
         "technique": "Lean 4 proof (reference-set theorem about the index kernel regenerated from source; schedule independence of tasks with disjoint write regions, for every schedule) + race-detector exploration of the portable build under perturbed scheduling",
-        "claim": "Kernel-checked: for tasks that write only their own region and read only it and a frozen area, EVERY schedule leaves each region exactly as the task's solo run (so the result is schedule-independent); the reference-set theorem for the regenerated indexAlpha gives the locality premise (a cross-lane reference never points into the slice being written; a same-lane reference is strictly earlier). "
-                 "Go side: lanes 2..8 × 3 variants × 2 versions × memory {8p, 8p+3, 32p} × time 1..3 × GOMAXPROCS {1,2,3,16} with competing goroutines, on the purego build under the race detector; keys equal the sequential Lean model; goroutine count restored.",
+        "claim": "Kernel-checked: (1) reference-set theorems about the indexAlpha kernel regenerated from the source (a cross-lane reference never points into the slice being written; a same-lane reference is strictly earlier; everything inside the memory); (2) for tasks that write only their own region and read only it and a frozen area, EVERY schedule leaves each region exactly as the task's solo run; (3) the link to the concrete model: the model's own fill loop is the sequential run of the instantiated lane tasks (C09Link.model_fill_eq_seqFill), hence for every input on the documented domain and EVERY family of complete schedules the phases followed by extractKey give exactly the model's key, which equals the RFC 9106 reference (C04.key_eq_rfc); (4) the goroutine/WaitGroup structure of processBlocks regenerated from the source equals the shape the phase model assumes (workers_joined_facts). Go side: lanes 2..8 × 3 variants × 2 versions × memory {8p, 8p+3, 32p} × time 1..3 × GOMAXPROCS {1,2,3,16} with competing goroutines, on the purego build under the race detector; keys equal the sequential Lean model; goroutine count restored.",
         "note": "Kernel-checked: the reference-set theorems about the generated indexAlpha (refset_in_memory, refset_cross_lane_completed, refset_same_lane_earlier), the generic phase theorem (schedule_independent, complete_schedules_agree, complete_eq_sequential) and its Argon2 instantiation (argon2_phase_local, argon2_no_read_of_foreign_segment, key_schedule_independent: every complete schedule of all 4·time phases equals the sequential fill). "
                 "workers_joined_facts: the goroutine structure of processBlocks regenerated from the source (one `go processSegment` per lane inside the slice loop inside the pass loop, wg.Add(1) just before, wg.Wait() just after the lane loop, a fresh WaitGroup per slice, wg.Done() as the worker's last statement, no early exit) equals the shape the phase model assumes. Partial: that this syntax has the modelled meaning (sync.WaitGroup and goroutine semantics, one block operation as the atomic step) is runtime behaviour, tied by the race detector on the portable build and by the goroutine count, not proved. The abstract system is linked to the CONCRETE model (Props/C09Link.lean): processSegment_is_task, model_fill_eq_seqFill (the model's processBlocks = the sequential run of the instantiated lane tasks, cell for cell) and key_eq_any_complete_schedule — for every input on the documented domain and EVERY family of complete schedules, running the phases and extractKey gives exactly the model's key, which is the RFC 9106 reference by C04.key_eq_rfc.",
         "rule": "argonsched (purego, race): 12 (quick) / 300 (thorough) parameter tuples × 5 GOMAXPROCS settings with 4 yielding noise goroutines; key equal across settings and equal to the sequential model; argon: indexAlpha reference-set property on 3000 / 100000 tuples; non-trivial/distinct = distinct parameter tuples",
